@@ -214,11 +214,13 @@ def r09_2(ctx):
             ctx.require(not bad, "version:renegotiation-after-reset", f"NCP version {ncp}, negotiate / reset / negotiate on one object: {bad}", func=f, trace=p.trace(30), props=("C09",))
 
 
-@rule("R09.5", ["C09"], "T-ORD", floor=4)
+@rule("R09.5", ["C09", "C11"], "T-ORD", floor=4)
 def r09_5(ctx):
     """Start-up: on a socket:// path the host waits (bounded) for the NCP's spontaneous reset and, if it is seen,
     marks EZSP running and does not reset again; otherwise - serial path, or the spontaneous reset is late or
-    absent - it performs the reset; every successful start-up ends with the version negotiation."""
+    absent - it performs the reset; every successful start-up ends with the version negotiation; a waiter released with the
+    connection error makes start-up fail with that error (nothing is marked running).  The bounded wait may be written with
+    asyncio.timeout or with asyncio.wait(timeout=...)."""
     repo = ctx.repo
     f = repo.func(f"{EZ}:EZSP.startup_reset")
     ctx.fn(f)
@@ -232,7 +234,10 @@ def r09_5(ctx):
             return Outcomes(OK(None))
 
         models = event_models(holder) + [("urllib.parse.urlparse", lambda px_, t, a, k, fr: Obj(TypeRef("ParseResult"), {"scheme": scheme}, tag="url")),
-                                         ("self._gw.wait_for_startup_reset", Outcomes(OK(None), RAISE("TimeoutError"))),
+                                         # the waiter ends with the RSTACK, is released with the connection error, or - under asyncio.timeout - is
+                                         # interrupted by the time limit (inside a bounded asyncio.wait the limit leaves the task pending instead)
+                                         ("self._gw.wait_for_startup_reset", lambda px_, t, a, k, fr: Outcomes(OK(None), RAISE("ConnectionResetError")) if getattr(
+                                             px_, "in_wait_task", False) else Outcomes(OK(None), RAISE("ConnectionResetError"), RAISE("TimeoutError"))),
                                          ("self.reset", do_reset), ("self.version", Outcomes(OK(None))),
                                          ("self._config[conf.CONF_DEVICE_PATH]", lambda *a: "path")]
         px = PX(repo, models=models, inline=same_class(stop=("handle_callback",)))
@@ -249,8 +254,16 @@ def r09_5(ctx):
             aw = [e for e in p.events if e.kind == "await"]
             bad = None
             seen = bool(wt) and not str(wt[0].extra).startswith("raises")
-            if scheme == "socket" and (len(wt) != 1 or not any(c.endswith("asyncio_timeout") for c in wt[0].ctx)):
+            # a bounded asyncio.wait that ended with the waiter still pending is the time-out of that form
+            timed_out_wait = [e for e in aw if e.what == "asyncio.wait" and isinstance(e.extra, tuple) and e.extra[1] >= 1 and e.kwargs.get("timeout") is not None]
+            lost = bool(wt) and str(wt[0].extra) == "raises ConnectionResetError"
+            if scheme == "socket" and not (len(wt) == 1 and any(c.endswith("asyncio_timeout") for c in wt[0].ctx)) and not (not wt and timed_out_wait):
                 bad = "socket path: the spontaneous start-up reset is not awaited inside asyncio_timeout"
+            elif lost:
+                # released with the connection error: the handshake did not complete - nothing may be marked running, negotiated or reset
+                if not (p.terminal == "raise" and getattr(p.value, "cls_name", None) == "ConnectionResetError") or vs or rs or running_at_end(p, False):
+                    bad = (f"the start-up waiter is released with a connection error but startup_reset ends with {p.terminal} {p.value!r} after "
+                           f"{[e.what for e in aw]}: the error must propagate (no RSTACK was received)")
             elif scheme != "socket" and wt:
                 bad = "serial path waits for a spontaneous reset"
             elif seen and rs:
@@ -261,7 +274,7 @@ def r09_5(ctx):
                 bad = f"start-up does not end with the version negotiation: awaits {[e.what for e in aw]}"
             elif not running_at_end(p, False):
                 bad = "EZSP is not marked running when negotiation starts"
-            ctx.require(not bad, f"startup:{scheme or 'serial'}:{'seen' if seen else 'not-seen'}", f"{scheme or 'serial'} path, spontaneous reset {'seen' if seen else 'not seen'}: {bad}",
+            ctx.require(not bad, f"startup:{scheme or 'serial'}:{'lost' if lost else ('seen' if seen else 'not-seen')}", f"{scheme or 'serial'} path, spontaneous reset {'seen' if seen else 'not seen'}: {bad}",
                         func=f, trace=p.trace(14))
 
 
